@@ -217,7 +217,7 @@ LOADER = "import sys, json; sys.path.insert(0, %r); from vlib import backends as
 
 
 def loads_in_subprocess(text, timeout=20):
-    env = dict(os.environ, PYTHONPATH="/repo/src" + os.pathsep + VERIF)
+    env = dict(os.environ, PYTHONPATH=B.REPO_SRC + os.pathsep + VERIF)
     try:
         p = subprocess.run(["/venv/bin/python", "-c", LOADER], input=text, capture_output=True, text=True, timeout=timeout, env=env)
     except subprocess.TimeoutExpired:
